@@ -421,13 +421,19 @@ const mismNucs = "ACGTRYMKWSBDHVN"
 // (disjoint quality ranges per entry and per side) with positions drawn around
 // the given anchors.
 func genMism(t *rapid.T, label string, n int, anchors ...int) map[string]int {
-	k := rapid.SampledFrom([]int{0, 0, 1, 2, 3, 4}).Draw(t, label+"_k")
+	// up to 23 entries: Go maps change their iteration behaviour beyond 8 entries
+	// (one bucket), which matters to code that walks the map while transforming it
+	k := rapid.SampledFrom([]int{0, 0, 1, 2, 3, 4, 4, 9, 12, 17, 23}).Draw(t, label+"_k")
+	step, spread := 9, 8
+	if k > 4 {
+		step, spread = 2, 1
+	}
 	if k == 0 {
 		return nil
 	}
 	m := map[string]int{}
 	for j := 0; j < k; j++ {
-		a := ref.MismatchSide{Nuc: mismNucs[rapid.IntRange(0, len(mismNucs)-1).Draw(t, label+"_na")], Qual: j*9 + rapid.IntRange(0, 8).Draw(t, label+"_qa")}
+		a := ref.MismatchSide{Nuc: mismNucs[rapid.IntRange(0, len(mismNucs)-1).Draw(t, label+"_na")], Qual: j*step + rapid.IntRange(0, spread).Draw(t, label+"_qa")}
 		// the producer records mismatches only: the second base differs from the first
 		b := ref.MismatchSide{Nuc: mismNucs[(strings.IndexByte(mismNucs, a.Nuc)+rapid.IntRange(1, len(mismNucs)-1).Draw(t, label+"_nb"))%len(mismNucs)], Qual: 47 + rapid.IntRange(0, 46).Draw(t, label+"_qb")}
 		cands := []int{1, n}
